@@ -254,7 +254,7 @@ func c04Check(e *Env, prop string, actors []*actor) {
 	// oracle 3: model-free conservation
 	if len(e.commits) > 0 {
 		final := e.commits[len(e.commits)-1].Cat
-		e.out.StateHash = hash64(catalogDump(final, false))
+		e.out.StateHash = stateFingerprint(final)
 		sum := int64(0)
 		if c := final.Namespaces[[2]string{"db", "k"}]; c != nil {
 			for _, d := range c.Documents.List {
